@@ -393,4 +393,105 @@ theorem sanitize_friendly_eq (cs : List Clause) (z : List Char) (hf : friendly c
   rw [pass_eq_of_redacts matchSetPassword_ok (redacts_set cs z hf) _ (Nat.lt_succ_self _)]
   exact pass_eq_of_redacts matchCreatePassword_ok (redacts_create cs z hf) _ (Nat.lt_succ_self _)
 
+/-! ### Further helpers for Props/C15 -/
+
+/-- Does the word `password` (in any case, with U+017F for `s`) occur in the text? -/
+def hasPasswordWord : List Char → Bool
+  | [] => false
+  | c :: t => (matchKw kwPassword (c :: t)).isSome || hasPasswordWord t
+
+theorem hasPasswordWord_spec {xs : List Char} (h : hasPasswordWord xs = false) :
+    ∀ s, s <:+ xs → matchKw kwPassword s = none := by
+  induction xs with
+  | nil =>
+    intro s hs
+    rw [List.eq_nil_of_suffix_nil hs]
+    rfl
+  | cons c t ih =>
+    simp only [hasPasswordWord, Bool.or_eq_false_iff, Option.isSome_eq_false_iff, Option.isNone_iff_eq_none] at h
+    intro s hs
+    rcases List.suffix_cons_iff.mp hs with rfl | h'
+    · exact h.1
+    · exact ih h.2 s h'
+
+theorem closeQuote_no_space {g rest : List Char} (hg : ∀ c ∈ g, isSpace c = false) :
+    ∀ c ∈ (closeQuote g rest).1, isSpace c = false := by
+  unfold closeQuote
+  split
+  · rename_i q r
+    split
+    · rename_i hq
+      intro c hc
+      rcases List.mem_append.mp hc with h | h
+      · exact hg c h
+      · simp at h
+        subst h
+        unfold isQuote at hq
+        cases h1 : (c == '"') <;> cases h2 : (c == '\'') <;> simp_all <;> decide
+    · exact hg
+  · exact hg
+
+theorem groupBody_no_space {xs g r : List Char} (h : groupBody xs = some (g, r)) :
+    ∀ c ∈ g, isSpace c = false := by
+  unfold groupBody at h
+  split at h
+  · simp at h
+  · simp only [Option.some.injEq] at h
+    have := closeQuote_no_space (g := xs.takeWhile isPw) (rest := xs.dropWhile isPw)
+      (fun c hc => isPw_not_space (mem_takeWhile_sat _ _ _ hc))
+    rw [h] at this
+    exact this
+
+theorem matchGroup_no_space {xs g r : List Char} (h : matchGroup xs = some (g, r)) :
+    ∀ c ∈ g, isSpace c = false := by
+  unfold matchGroup at h
+  split at h
+  · simp at h
+  · rename_i q t
+    split at h
+    · rename_i hq
+      split at h
+      · rename_i g' r' hb
+        simp only [Option.some.injEq, Prod.mk.injEq] at h
+        obtain ⟨rfl, rfl⟩ := h
+        intro c hc
+        rcases List.mem_cons.mp hc with rfl | hc
+        · unfold isQuote at hq
+          cases h1 : (c == '"') <;> cases h2 : (c == '\'') <;> simp_all <;> decide
+        · exact groupBody_no_space hb c hc
+      · exact groupBody_no_space h
+    · exact groupBody_no_space h
+
+theorem spacesGroup_shape {pre xs p g rest : List Char} (h : spacesGroup pre xs = some (p, g, rest)) :
+    (∀ c ∈ g, isSpace c = false) ∧ ∃ p' w, p = p' ++ [w] ∧ isSpace w = true := by
+  unfold spacesGroup at h
+  split at h
+  · simp at h
+  · rename_i w r hw
+    split at h
+    · simp at h
+    · rename_i g' rest' hg
+      simp only [Option.some.injEq, Prod.mk.injEq] at h
+      obtain ⟨rfl, rfl, rfl⟩ := h
+      refine ⟨matchGroup_no_space hg, ?_⟩
+      have a := matchSpaces_sound hw
+      rcases List.eq_nil_or_concat w with h0 | ⟨w', c, hc⟩
+      · exact absurd h0 a.2.1
+      · refine ⟨pre ++ w', c, by rw [hc]; simp, a.2.2 c (by rw [hc]; simp)⟩
+
+/-- The same clauses with other passwords. -/
+def withBodies : List Clause → List (List Char) → List Clause
+  | [], _ => []
+  | c :: cs, [] => c :: cs
+  | c :: cs, b :: bs => { c with body := b } :: withBodies cs bs
+
+theorem expectedText_withBodies (cs : List Clause) (bs : List (List Char)) (z : List Char) :
+    expectedText (withBodies cs bs) z = expectedText cs z := by
+  induction cs generalizing bs with
+  | nil => rfl
+  | cons c cs ih =>
+    cases bs with
+    | nil => rfl
+    | cons b bs => simp [withBodies, expectedText, ih]
+
 end InfluxQL.Sanitize
